@@ -33,4 +33,31 @@ var checks = map[string]Check{
 			return js
 		},
 	},
+	"C07": {
+		Level:       "model_checking",
+		Rule:        "(a) explicit enumeration of all operation histories up to the stated depth over {accept, reject, SetID colliding/fresh, call, close, remote close, cut, peer close} on 2-3 connections, each run to quiescence on the real code with the index/health/notify/hook invariants evaluated in every quiescent state; (b) stateless DFS over all interleavings (preemption bound) of Close vs remote close/cut/Close and of colliding SetIDs; distinct = distinct observation logs",
+		Assumptions: baseAssumptions,
+		Jobs: func(tier string) []Job {
+			var js []Job
+			if tier == "thorough" {
+				js = append(js, sched("c07_hist", "depth=5,slots=2", 0, 16))
+				js = append(js, sched("c07_hist", "depth=4,slots=3", 0, 16))
+			} else {
+				js = append(js, sched("c07_hist", "depth=4,slots=2", 0, 8))
+			}
+			b := 2
+			if tier == "thorough" {
+				b = 3
+			}
+			for _, k := range []string{"close_vs_rclose", "close_vs_cut", "close_vs_close", "setid_vs_setid", "takeover_vs_close"} {
+				j := sched("c07_race", "kind="+k, b, 4)
+				if tier == "thorough" {
+					j.Shards = 16
+					j.Budget = 900
+				}
+				js = append(js, j)
+			}
+			return js
+		},
+	},
 }
